@@ -701,7 +701,7 @@ def gen_e2e(rng, ranks=None):
         # one rank delivered as TWO input files (two jobs on one device, the second possibly after a counter wrap): the
         # rank is one device with one counter, whatever the number of files
         cuts = [j for j in range(2, len(out) - 1) if out[j].get("ph") in ("X", "B") and out[j].get("pid") == r]
-        if cuts and rng.random() < 0.15:
+        if cuts and rng.random() < 0.35:
             j = rng.choice(cuts)
             sc["files"][f"rank{r}.json"] = out[:j]
             sc["files"][f"rank{r}.b.json"] = out[j:]
